@@ -20,8 +20,8 @@ EXTENDS BrokerAbs, Json, IOUtils, TLCExt
 
 Traces == JsonDeserialize(IOEnv.TRACE_FILE)
 
-VARIABLES tid, l, calls, chk, devs, taint, rdl, rdls, dead, unsure
-tvars == <<tid, l, calls, chk, devs, taint, rdl, rdls, dead, unsure>>
+VARIABLES tid, l, calls, chk, devs, taint, rdl, rdls, dead, unsure, enqAt, ovt
+tvars == <<tid, l, calls, chk, devs, taint, rdl, rdls, dead, unsure, enqAt, ovt>>
 allvars == <<vars, tvars>>
 
 Ev == Traces[tid][l]
@@ -34,16 +34,16 @@ Call(k) == IF k \in DOMAIN calls THEN calls[k] ELSE NoCall
 Done(k) == calls' = [calls EXCEPT ![k].done = TRUE]
 
 TInit == /\ Init
-         /\ tid \in 1..Len(Traces) /\ l = 1 /\ calls = <<>> /\ chk = {} /\ devs = {} /\ taint = {} /\ rdl = [i \in Ids |-> 0] /\ rdls = [i \in Ids |-> 0] /\ dead = {} /\ unsure = {}
+         /\ tid \in 1..Len(Traces) /\ l = 1 /\ calls = <<>> /\ chk = {} /\ devs = {} /\ taint = {} /\ rdl = [i \in Ids |-> 0] /\ rdls = [i \in Ids |-> 0] /\ dead = {} /\ unsure = {} /\ enqAt = [i \in Ids |-> 0] /\ ovt = [i \in Ids |-> 0]
          /\ TLCSet(tid, 1)
 
 THdr == /\ Is("hdr") /\ Step
         /\ chk' = ToSet(Ev.chk) /\ devs' = ToSet(Ev.devs)
-        /\ UNCHANGED <<vars, calls, taint, rdl, rdls, dead, unsure>>
+        /\ UNCHANGED <<vars, calls, taint, rdl, rdls, dead, unsure, enqAt, ovt>>
 
 TCons == /\ Is("cons") /\ Step
          /\ cons' = [cons EXCEPT ![Ev.c] = [on |-> FALSE, q |-> Ev.q, cat |-> Ev.cat, topics |-> ToSet(Ev.topics)]]
-         /\ UNCHANGED <<now, st, loc, meta, holder, origin, deliv, ret, norder, transit, pend, calls, chk, devs, taint, rdl, rdls, dead, unsure>>
+         /\ UNCHANGED <<now, st, loc, meta, holder, origin, deliv, ret, norder, transit, pend, calls, chk, devs, taint, rdl, rdls, dead, unsure, enqAt, ovt>>
 
 (* C05 bounded latency: a consume() call of a normal consumer that has been waiting since before *)
 (* message i fell due is not still empty-handed after i's deadline (dl = due + latency bound),    *)
@@ -66,14 +66,14 @@ Starved(t, headOfLine) ==
 TTime == /\ Is("time") /\ Step
          /\ Ev.now >= now /\ now' = Ev.now
          /\ ("latency" \in chk => (~Starved(Ev.now, FALSE) \/ (Dev("rabbit_head_of_line") /\ ~Starved(Ev.now, TRUE))))
-         /\ UNCHANGED <<st, loc, meta, holder, origin, deliv, ret, cons, norder, transit, pend, calls, chk, devs, taint, rdl, rdls, dead, unsure>>
+         /\ UNCHANGED <<st, loc, meta, holder, origin, deliv, ret, cons, norder, transit, pend, calls, chk, devs, taint, rdl, rdls, dead, unsure, enqAt, ovt>>
 
 TBegin == /\ Is("begin") /\ Step
           /\ calls' = (Ev.k :> [op |-> Ev.op, c |-> Ev.c, i |-> Ev.i, m |-> MetaOf(Ev.m), done |-> FALSE, t0 |-> now,
                                 h0 |-> (Ev.i # 0 /\ Ev.c # 0 /\ Held(Ev.c, Ev.i))]) @@ calls
           /\ IF Ev.op = "start" THEN Start(Ev.c)
              ELSE UNCHANGED vars
-          /\ UNCHANGED <<chk, devs, taint, rdl, rdls, dead, unsure>>
+          /\ UNCHANGED <<chk, devs, taint, rdl, rdls, dead, unsure, enqAt, ovt>>
 
 -----------------------------------------------------------------------------
 (* Deviation actions: behaviours of the pinned code that the contract forbids.  They are        *)
@@ -156,6 +156,18 @@ DevRedisExpireAnyCategory(c, i) ==
     /\ holder' = [holder EXCEPT ![i] = NoC]
     /\ UNCHANGED <<now, st, meta, origin, deliv, ret, cons, norder, transit, pend>>
 
+(* C15 "no waiting message is overtaken indefinitely by later arrivals": every time a normal consumer is given a  *)
+(* message that was enqueued after message j had fallen due, while j is still waiting, matching and alive, j has    *)
+(* been overtaken once more; the count is bounded.                                                                  *)
+StarveBound == 8
+OvtAfter(i) ==
+    IF loc[i] \in {U("n"), U("d")} /\ loc'[i] = U("p") /\ holder'[i] # NoC /\ cons[holder'[i]].cat = "n"
+    THEN [j \in Ids |-> IF /\ j # i /\ Live(j) /\ holder[j] = NoC /\ (loc[j] = U("n") \/ loc[j] = U("d"))
+                          /\ meta[j].due # NoTime /\ meta[j].due <= now /\ enqAt[i] > meta[j].due
+                          /\ Matches(holder'[i], j) /\ ~Overdue(j)
+                       THEN ovt[j] + 1 ELSE ovt[j]]
+    ELSE [j \in Ids |-> IF j = i THEN 0 ELSE ovt[j]]
+
 (* Once a listed deviation has fired on a message, what happens to that message afterwards is a  *)
 (* consequence of the known defect: it is followed, but no longer judged (only when re-validating a *)
 (* rejected trace with deviations enabled; other messages stay under the full contract).           *)
@@ -220,6 +232,10 @@ TMove ==
     /\ rdl' = IF Ev.rdl # 0 THEN [rdl EXCEPT ![Ev.i] = Ev.rdl] ELSE rdl
     /\ rdls' = IF Ev.rdl # 0 THEN [rdls EXCEPT ![Ev.i] = Ev.rdls] ELSE rdls
     /\ UNCHANGED <<chk, devs, dead, unsure>>
+    /\ enqAt' = IF st[Ev.i] = "new" THEN [enqAt EXCEPT ![Ev.i] = now] ELSE enqAt
+    /\ ovt' = OvtAfter(Ev.i)
+    \* (the Redis fetch-window defect, once listed as a known finding, also explains unbounded overtaking)
+    /\ (("starve" \in chk /\ ~Dev("redis_lifo_window")) => \A j \in Ids : ovt'[j] <= StarveBound)
 
 (* End of a call.  ok: the effect must have been applied.  exc/cancel: all or nothing.           *)
 TEnd ==
@@ -257,17 +273,17 @@ TEnd ==
             [] OTHER -> UNCHANGED vars /\ UNCHANGED <<calls, taint>>
     \* a start() that was interrupted may or may not have taken effect: that consumer is not known to be listening
     /\ unsure' = IF (Call(Ev.k).op = "start" /\ Ev.st # "ok") THEN unsure \cup {Call(Ev.k).c} ELSE unsure
-    /\ UNCHANGED <<chk, devs, rdl, rdls, dead>>
+    /\ UNCHANGED <<chk, devs, rdl, rdls, dead, enqAt, ovt>>
 
 (* full observation of the broker: the contract state must agree with it for every id *)
 TObs == /\ Is("obs") /\ Step
         /\ \A j \in Ids : loc[j] = (IF j <= Len(Ev.v) THEN Vec(Ev.v[j]) ELSE Zero)
-        /\ UNCHANGED <<vars, calls, chk, devs, taint, rdl, rdls, dead, unsure>>
+        /\ UNCHANGED <<vars, calls, chk, devs, taint, rdl, rdls, dead, unsure, enqAt, ovt>>
 
 (* the process owning these consumers died without any cleanup *)
 TCrash == /\ Is("crash") /\ Step
           /\ dead' = dead \cup ToSet(Ev.cs)
-          /\ UNCHANGED <<vars, calls, chk, devs, taint, rdl, rdls, unsure>>
+          /\ UNCHANGED <<vars, calls, chk, devs, taint, rdl, rdls, unsure, enqAt, ovt>>
 
 TraceConsCfgs == {[c \in Consumers |-> [on |-> FALSE, q |-> 0, cat |-> "n", topics |-> {}]]}
 TNext == THdr \/ TCrash \/ TObs \/ TCons \/ TTime \/ TBegin \/ TMove \/ TEnd
